@@ -13,7 +13,7 @@ from pymbolic.mapper import Mapper
 import pymbolic.primitives as pmbl
 from pymbolic.parser import (
     _openpar, _closepar, _minus, FinalizedTuple, _PREC_UNARY,
-    _PREC_TIMES, _PREC_PLUS, _PREC_CALL, _times, _plus
+    _PREC_TIMES, _PREC_PLUS, _PREC_CALL, _PREC_LOGICAL_AND, _times, _plus
 )
 try:
     from fparser.two.Fortran2003 import Intrinsic_Name
@@ -296,8 +296,16 @@ class ExpressionParser(ParserBase):
 
         if pstate.is_next(_minus):
             pstate.advance()
-            left_exp = pmbl.Product((-1, self.parse_expression(pstate, _PREC_UNARY)))
+            # In Fortran a leading minus applies to the whole following term
+            # (``-a**2`` is ``-(a**2)``, ``-a*b`` is ``-(a*b)``), i.e., it binds
+            # weaker than ``**``, ``*`` and ``/`` but like a binary minus
+            left_exp = pmbl.Product((-1, self.parse_expression(pstate, _PREC_PLUS)))
             return left_exp
+        if pstate.is_next(self._f_not):
+            pstate.advance()
+            # In Fortran ``.not.`` binds weaker than the relational operators
+            # (``.not. a < b`` is ``.not. (a < b)``) but stronger than ``.and.``
+            return pmbl.LogicalNot(self.parse_expression(pstate, _PREC_LOGICAL_AND))
         if pstate.is_next(_openpar):
             pstate.advance()
 
